@@ -56,18 +56,32 @@ class WeaverTruncate(Family):
 
     def configs(self, tier):
         Ls = (3, 4, 5) if tier == "quick" else (3, 4, 5, 6)
-        return [{"L": L, "reshaped": rs, "lr": lr, "rr": rr} for L in Ls for rs in (False, True)
-                for (lr, rr) in ((False, False), (True, True), (False, True))]
+        out = [{"L": L, "reshaped": rs, "lr": lr, "rr": rr} for L in Ls for rs in (False, True)
+               for (lr, rr) in ((False, False), (True, True), (False, True))]
+        # arbitrary states (not only those two histories): working and reference series that differ in their interior
+        # points only ("gridded": same length, same end points - e.g. after interpolate(n=len(x)) of a non-uniform series),
+        # in length ("reshaped") or also in range ("reshaped-other-range")
+        for L in ((3, 4) if tier == "quick" else (3, 4, 5)):
+            for kind in ("gridded", "reshaped", "reshaped-other-range"):
+                for (lr, rr) in ((False, False), (True, True), (False, True)):
+                    if kind == "reshaped-other-range" and L > 3:
+                        continue
+                    out.append({"L": L, "reshaped": kind, "lr": lr, "rr": rr})
+        return out
 
     def run(self, ctx, inst, L, reshaped, lr, rr):
         from traffic_weaver import Weaver
         from traffic_weaver.rfa import PiecewiseConstantRFA
-        xs, ys = ctx.reals("x", L), ctx.reals("y", L)
-        increasing(ctx, xs)
         a, b = ctx.real("left"), ctx.real("right")
-        w = Weaver(arr(ctx, xs), arr(ctx, ys))
-        if reshaped:
-            w.recreate_from_average(2, rfa_class=PiecewiseConstantRFA)
+        if isinstance(reshaped, str):
+            from checks.weaverfam import make_state
+            w = make_state(ctx, L, reshaped).w
+        else:
+            xs, ys = ctx.reals("x", L), ctx.reals("y", L)
+            increasing(ctx, xs)
+            w = Weaver(arr(ctx, xs), arr(ctx, ys))
+            if reshaped:
+                w.recreate_from_average(2, rfa_class=PiecewiseConstantRFA)
         WX, WY = list(w.get()[0]), list(w.get()[1])
         FX, FY = list(w.get_reference()[0]), list(w.get_reference()[1])
         ex = (lambda v: ctx.exact(v)) if not ctx.symbolic else (lambda v: v)
